@@ -47,7 +47,8 @@ class BaseBoom(BaseException):
     """KeyboardInterrupt-like: not an Exception subclass"""
 
 
-EXC = (ValueError, Boom, BaseBoom)
+# StopIteration is special: inside an iterator-driven loop (map, starmap, generators) it silently ends the loop instead of propagating
+EXC = (ValueError, Boom, BaseBoom, StopIteration)
 
 
 class F:
